@@ -9,9 +9,8 @@ RUN_TIMEOUT = 1500
 MODE = "24"
 RULE = ("histories of at/remove/om/rmom on a fresh in-process p2p connection pair: ALL histories of length <= 3 (quick) / <= 4 "
         "(thorough; those of length 4 that start with a removal are skipped) over 4 paths (/, /a, /a/b, /x) x {I1, I2, ObjectManager}; all of length <= 2 over 6 paths x 3 interfaces + "
-        "ObjectManager; random histories of length 20..60 (thorough: up to 200), 60% steered away from the known-deviation "
-        "class so that the oracle stays in force over the whole history, each flagged random history also run cut before its "
-        "first flagged step. After EVERY op: result, 6 paths x 4 interfaces looked up through ObjectServer::interface and "
+        "ObjectManager; random histories of length 20..60 (thorough: up to 200), biased towards "
+        "effective operations (no known-deviation class is left: the oracle is in force on every step of every history). After EVERY op: result, 6 paths x 4 interfaces looked up through ObjectServer::interface and "
         "called from the peer (instance identity compared), Introspect at each of the 6 paths (interfaces, full subtree). "
         "non-trivial = the history has >= 2 ops, at least one successful op and at least one successful removal or a nested path")
 TRUSTED = ["harness/hobjsrv (in-process UnixStream::pair p2p connections, zbus_xml to read the Introspect XML)",
@@ -55,7 +54,8 @@ def segs(p):
 
 
 def flat_step(s, op):
-    """returns (flagged?, effective?) and updates s (a set of (segs, kind))"""
+    """returns (flagged?, effective?) and updates s (a set of (segs, kind)); no known-deviation class is left
+    (fixes f5fe3276, 71f8bd70), so nothing is ever flagged"""
     a, p, k = parse(op)
     key = (segs(p), k)
     if a == "at":
@@ -66,14 +66,6 @@ def flat_step(s, op):
     if key not in s:
         return False, False
     s.discard(key)
-    pp = key[0]
-    emptied = not any((pp, u) in s for u in "123")
-    if not emptied or pp == ():
-        return False, True
-    if any(len(q) > len(pp) and q[:len(pp)] == pp for q, _ in s):
-        return False, True
-    if (pp, "M") in s:
-        return True, True      # manager_dropped (over-approximated: interface-less child nodes may keep the node)
     return False, True
 
 
@@ -201,16 +193,14 @@ def search(rng, bad_cases):
 
 ENABLED = True
 LEVEL = "proof"
-LEVEL_TEXT = ("Theorems in coq/theories/Properties/C24.v over ALL histories (no bound on length, paths or depth): the model of the node "
-              "tree (get_child / get_child_mut with creation, add_arc_interface, remove with node deletion, is_empty, has_children; "
-              "as repaired by fix f5fe3276) refines a flat map (path, interface) -> instance for every history that avoids ONE "
-              "decidable class (manager_dropped); inside it a concrete history refutes the full statement (C24_manager_refuted). The "
-              "two classes repaired by f5fe3276 (root removal panic, subtree deletion) are now inside the theorem "
-              "(C24_repaired_histories). The model is tied to the code by running every history of length <= 3 over a 24-op alphabet "
-              "and random long histories on the real ObjectServer over a p2p connection pair, comparing after every op lookups, "
-              "method calls and the Introspect tree.")
-LEVEL_NOTE = ("partial: the full statement is still refuted in one known class (a removal that leaves no user interface at a childless "
-              "non-root node carrying an ObjectManager destroys the node together with the manager: Node::is_empty counts "
-              "ObjectManager as standard; suggested repair in seeded/selftest/C24/suggested_fix_manager.diff); C24_refines_partial "
-              "covers all other histories. Fixed by f5fe3276 and now proved: removal at '/', removal at a node with children. "
-              "Trusted: Coq kernel, the hand-written tree model, harness hobjsrv, sequential histories only.")
+LEVEL_TEXT = ("Theorem C24_refines in coq/theories/Properties/C24.v, for ALL histories (no bound on length, paths or depth, nothing "
+              "excluded): the model of the node tree (get_child / get_child_mut with creation, add_arc_interface, remove with node "
+              "deletion, is_empty, has_children; as the code is after fixes f5fe3276 and 71f8bd70) refines a flat map "
+              "(path, interface) -> instance: lookups, method calls and introspection of every pair, the result of every operation, "
+              "and no panic. The model is tied to the code by running every history of length <= 3 over a 24-op alphabet and random "
+              "long histories on the real ObjectServer over a p2p connection pair, comparing after every op lookups, method calls "
+              "and the Introspect tree.")
+LEVEL_NOTE = ("full strength: no known-deviation class is left. The three defects found earlier (removal at '/' panicked; removal at a node "
+              "with children deleted the subtree; removal dropping an ObjectManager registered at the same path) were fixed by f5fe3276 "
+              "and 71f8bd70; their witnesses run as ordinary cases and the reverse patches under seeded/selftest/C24 are caught with a "
+              "failing input. Trusted: Coq kernel, the hand-written tree model, harness hobjsrv, sequential histories only.")
